@@ -231,6 +231,10 @@ func judgeRaw(w *proxyWorld, res *Result) {
 }
 
 // hostile responses whose body is shorter than (or not framed as) the head declares
+// hostile responses after which the origin keeps its connection open (a protocol switch nobody asked
+// for: the bytes after the 101 head belong to "the other protocol" and the origin goes on waiting)
+var hostileKeepsOpen = map[int]bool{27: true}
+
 var hostileTruncated = map[int]bool{0: true, 1: true, 10: true, 19: true}
 
 func rawClass(raw, transport string) string {
